@@ -104,7 +104,10 @@ func newCacheWorld(fs bool) *cacheWorld {
 		if err != nil {
 			panic("harness: " + err.Error())
 		}
-		inner := twig.NewFileSystemLoader([]string{dir})
+		// two search paths: slot 2 of the model is the first, slot 3 the second
+		os.Mkdir(dir+"/a", 0o755)
+		os.Mkdir(dir+"/b", 0o755)
+		inner := twig.NewFileSystemLoader([]string{dir + "/a", dir + "/b"})
 		inner.SetSuffix("")
 		w.fs = &fsLoader{inner: inner, dir: dir, loads: map[string]int{}}
 		w.e.RegisterLoader(w.fs)
@@ -122,6 +125,13 @@ func (w *cacheWorld) close() {
 }
 
 var fsEpoch = time.Unix(1700000000, 0)
+
+func slotDir(i int) string {
+	if i == 3 {
+		return "/b/"
+	}
+	return "/a/"
+}
 
 // apply executes one operation; served: version, 0 not found, -1 n/a, -2 other error
 func (w *cacheWorld) apply(op *COp) (served int, msg string) {
@@ -155,7 +165,7 @@ func (w *cacheWorld) apply(op *COp) (served int, msg string) {
 		if op.I == 1 {
 			w.l1.content[op.N] = op.V
 		} else if w.fs != nil {
-			p := w.fs.dir + "/" + op.N
+			p := w.fs.dir + slotDir(op.I) + op.N
 			if err := os.WriteFile(p, []byte(fmt.Sprintf("%s:%d", op.N, op.V)), 0o644); err != nil {
 				return -2, "harness: " + err.Error()
 			}
@@ -169,7 +179,7 @@ func (w *cacheWorld) apply(op *COp) (served int, msg string) {
 		if op.I == 1 {
 			w.l1.content[op.N] = 0
 		} else if w.fs != nil {
-			os.Remove(w.fs.dir + "/" + op.N)
+			os.Remove(w.fs.dir + slotDir(op.I) + op.N)
 		} else {
 			w.l2.content[op.N] = 0
 		}
